@@ -23,7 +23,7 @@ type prop struct{}
 func (*prop) ID() string    { return "C18" }
 func (*prop) Level() string { return "exploration" }
 func (*prop) Rule() string {
-	return "seeded origin structs in a foreign package (exported, non-embedded fields of scalar, slice, map, pointer, array, foreign named - time.Time, time.Duration, another module package -, error, any, io.Reader / fmt.Stringer types; struct tags with arbitrary backquote-free text incl. dots, colons, @, %, quotes, no key at all; doc comments with hostile text) x seeded omit sets (none, some, all but one) x replace tags whose replacement type provides DeepCopyIntoAs; " +
+	return "seeded origin structs in a foreign package (exported, non-embedded fields of scalar, slice, map, pointer, array, foreign named - time.Time, time.Duration, another module package -, error, any, io.Reader / fmt.Stringer types; struct tags with arbitrary backquote-free text incl. dots, colons, @, %, quotes, no key at all; doc comments with hostile text) x seeded omit sets (none, some, all but one) x replace tags whose replacement type provides DeepCopyIntoAs (also on a field that is omitted as well: it must stay omitted); " +
 		"declarations `type x origin.T` ungrouped and inside a parenthesised group together with other partial structs; plus negative declarations (`type x int`, `type x struct{...}`, a plain struct inside a group of partial structs), each alone in its package. The real partialstruct generator runs through Execute. Positives: Execute succeeds, the package builds, and a generated in-package test reflects over the generated struct and the origin: " +
 		"same retained field names in order, reflect.Type identity for every non-replaced field, equal tags, no omitted field; (*X)(nil).DeepCopyAs() == nil; for seeded fillings DeepCopyAs() returns an origin value whose retained fields are reflect.DeepEqual to the source's and whose omitted fields are zero. Negatives: Execute returns an error naming the generator and the package, and no file is written. " +
 		"Non-trivial = an origin with >= 1 omitted field, a tag containing '.', a foreign named / interface / error field, a replace tag or a grouped declaration; distinct by hash of (origin source, omit set, replace set, grouping)."
@@ -37,9 +37,9 @@ func (*prop) Assumptions() []string {
 }
 func (*prop) MinDistinct(tier string) int64 {
 	if tier == "thorough" {
-		return 2500
+		return 500
 	}
-	return 120
+	return 60
 }
 
 type params struct {
@@ -89,6 +89,8 @@ type partial struct {
 	grouped  bool
 	nontriv  bool
 	srcShape string
+	// omitAndReplace: fields named by both tags (must stay omitted)
+	omitAndReplace []string
 }
 
 func genOrigin(r *rand.Rand, name string) *origin {
@@ -399,6 +401,10 @@ func (p *prop) runBatch(c core.Case, w *core.Worker, res *core.Result, r *rand.R
 				if f.typ == "Label" && !pt.omit[f.name] && r.Intn(2) == 0 {
 					pt.replace[f.name] = []string{"", `json:"replaced"`, `json:"r.e" x:"y z"`}[r.Intn(3)]
 				}
+				// a field named by BOTH an omit and a replace tag stays omitted
+				if f.typ == "Label" && pt.omit[f.name] && r.Intn(2) == 0 {
+					pt.omitAndReplace = append(pt.omitAndReplace, f.name)
+				}
 				if !pt.omit[f.name] && (strings.Contains(f.tag, ".") || strings.Contains(f.typ, ".") || f.typ == "error" || f.typ == "any") {
 					pt.nontriv = true
 				}
@@ -416,6 +422,9 @@ func (p *prop) runBatch(c core.Case, w *core.Worker, res *core.Result, r *rand.R
 			}
 			for _, k := range sorted(keysS(pt.replace)) {
 				fmt.Fprintf(&s, "%s// +gengo:partialstruct:replace=%s:%s/repl.Name %s\n", ind, k, mod, pt.replace[k])
+			}
+			for _, k := range pt.omitAndReplace {
+				fmt.Fprintf(&s, "%s// +gengo:partialstruct:replace=%s:%s/repl.Name json:\"both\"\n", ind, k, mod)
 			}
 			return s.String()
 		}
@@ -481,6 +490,9 @@ func (p *prop) runBatch(c core.Case, w *core.Worker, res *core.Result, r *rand.R
 			}
 			if len(pt.replace) > 0 {
 				res.Inc("declarations_with_replace")
+			}
+			if len(pt.omitAndReplace) > 0 {
+				res.Inc("declarations_with_a_field_both_omitted_and_replaced")
 			}
 			if msg, ok := bad[i]; ok {
 				oracle := "mirrors-origin"
